@@ -144,13 +144,35 @@ def oracle(c):
     kind = c["kind"]
     f = c["formula"]
 
-    def build(formula):
+    # user objects named like helpers / aliases (a threshold p, a constant B, a stateless scale ...): the
+    # built-in helpers are looked up first, so nothing changes
+    shadow = {"p": 0.25, "B": 200, "T": 3, "S": "s", "I": None, "scale": (lambda v: v * 0), "standardize": 1,
+              "binary": (lambda *a: a[0]), "prop": (lambda *a: a[0]), "offset": (lambda v: v * 0), "C": 7}
+
+    def build(formula, ns=None):
         try:
-            return design_matrices(formula, df), None
+            return design_matrices(formula, df, extra_namespace=ns), None
         except Exception as e:
             return None, e
 
     d, err = build(f)
+    ds, errs = build(f, shadow)
+    if (d is None) != (ds is None):
+        return f"{f!r}: user objects named like the helpers change whether the formula is accepted ({err or errs})"
+    if d is not None:
+        for part in ("response", "common", "group"):
+            a, b = getattr(d, part), getattr(ds, part)
+            if (a is None) != (b is None) or (a is not None and not np.array_equal(
+                    np.asarray(a.design_matrix, dtype=float), np.asarray(b.design_matrix, dtype=float), equal_nan=True)):
+                return f"{f!r}: user objects named like the helpers change the {part} matrix"
+        if d.common is not None and not kind.startswith("binary"):
+            try:
+                n1 = np.asarray(d.common.evaluate_new_data(new).design_matrix, dtype=float)
+                n2 = np.asarray(ds.common.evaluate_new_data(new).design_matrix, dtype=float)
+                if not np.array_equal(n1, n2, equal_nan=True):
+                    return f"{f!r}: user objects named like the helpers change the matrix on new data"
+            except Exception:  # noqa
+                pass
     # aliases are exact synonyms
     if c["alias"]:
         d2, err2 = build(c["alias"])
